@@ -177,8 +177,8 @@ func randMessage(r *hx.Rng, lv *level) []*node {
 				out = append(out, &node{num: t, wt: 2, b: b})
 			case roleNested:
 				kids := randMessage(r, lv.sub[t])
-				if kids == nil {
-					kids = []*node{}
+				if kids == nil || r.Intn(4) == 0 {
+					kids = []*node{} // present but empty nested message
 				}
 				out = append(out, &node{num: t, wt: 2, kids: kids})
 			case roleMixed:
@@ -1247,6 +1247,7 @@ func main() {
 	case "C13":
 		streamC13(r)
 		streamC13Systematic(r.Fork("systematic"))
+		streamC13AfterError(r.Fork("aftererror"))
 	case "C14":
 		streamC14(r)
 		streamC14Held(r.Fork("held"))
@@ -1382,25 +1383,36 @@ func aliasProbe(r *hx.Rng, entry string, d *def, lv *level, fast bool, maxbuf in
 		}
 	}
 	po.ok = true
-	// hold on to real values (not renderings) of every top-level tag
+	// hold on to real values (not renderings) of every declared tag, at the top level and inside nested results
 	var h held
-	for _, k := range d.keys {
-		if fd, err := res.GetFieldData(k); err == nil {
-			if s, err := fd.StringValue(); err == nil {
-				h.strs = append(h.strs, s)
+	var holdAll func(res *lazyproto.DecodeResult, d *def, depth int)
+	holdAll = func(res *lazyproto.DecodeResult, d *def, depth int) {
+		for _, k := range d.keys {
+			if fd, err := res.GetFieldData(k); err == nil {
+				if s, err := fd.StringValue(); err == nil {
+					h.strs = append(h.strs, s)
+				}
+				if ss, err := fd.StringValues(); err == nil {
+					h.strs = append(h.strs, ss...)
+				}
+				if b, err := fd.BytesValue(); err == nil {
+					h.bytes = append(h.bytes, b)
+				}
+				if bs, err := fd.BytesValues(); err == nil {
+					h.bytes = append(h.bytes, bs...)
+				}
+				holdNums(fd, &h)
 			}
-			if ss, err := fd.StringValues(); err == nil {
-				h.strs = append(h.strs, ss...)
+			if sub := d.sub[k]; sub != nil && depth > 0 {
+				if nrs, err := res.NestedResults(k); err == nil {
+					for _, nr := range nrs {
+						holdAll(nr, sub, depth-1)
+					}
+				}
 			}
-			if b, err := fd.BytesValue(); err == nil {
-				h.bytes = append(h.bytes, b)
-			}
-			if bs, err := fd.BytesValues(); err == nil {
-				h.bytes = append(h.bytes, bs...)
-			}
-			holdNums(fd, &h)
 		}
 	}
+	holdAll(res, d, 2)
 	for _, s := range h.strs {
 		h.copyS = append(h.copyS, strings.Clone(s))
 	}
@@ -1440,13 +1452,11 @@ func aliasProbe(r *hx.Rng, entry string, d *def, lv *level, fast bool, maxbuf in
 	}
 	po.heldAfterOverwrite = heldChanged()
 	// 2. every accessor once more, in the other order: what was handed out before must not be scratch space
-	for j := len(d.keys) - 1; j >= 0; j-- {
-		if fd, err := res.GetFieldData(d.keys[j]); err == nil {
-			var scratch held
-			holdNums(fd, &scratch)
-			_, _ = fd.StringValues()
-			_, _ = fd.BytesValues()
-		}
+	{
+		saved := h
+		h = held{}
+		holdAll(res, d, 2) // (the second round of values is dropped: only the first round is judged)
+		h = saved
 	}
 	po.heldAfterReaccess = heldChanged()
 	// 3. Close, then recycle the pooled result with other inputs
@@ -1460,11 +1470,11 @@ func aliasProbe(r *hx.Rng, entry string, d *def, lv *level, fast bool, maxbuf in
 			for _, o := range ops {
 				observe(r2, o)
 			}
-			for _, kk := range d.keys {
-				if fd, err := r2.GetFieldData(kk); err == nil {
-					var scratch held
-					holdNums(fd, &scratch)
-				}
+			{
+				saved := h
+				h = held{}
+				holdAll(r2, d, 2)
+				h = saved
 			}
 			_ = r2.Close()
 		}
@@ -1614,6 +1624,13 @@ func sweep(res *lazyproto.DecodeResult, d *def) []string {
 		for _, kind := range kinds {
 			for _, slice := range []bool{false, true} {
 				o := aop{typ: 'F', path: p, kind: kind, slice: slice}
+				out = append(out, o.token()+"="+observe(res, o))
+			}
+		}
+		// every occurrence of a nested field through NestedResults (FieldData paths only reach the last one)
+		if len(p) >= 2 {
+			for _, kind := range []string{"string", "int64", "uint32"} {
+				o := aop{typ: 'N', path: p[:len(p)-2], t: p[len(p)-2], inner: p[len(p)-1], kind: kind, slice: true}
 				out = append(out, o.token()+"="+observe(res, o))
 			}
 		}
@@ -1789,6 +1806,91 @@ func streamC13Systematic(r *hx.Rng) {
 			for _, fast := range []bool{false, true} {
 				for _, entry := range []string{"dec", "fn"} {
 					lazyCase("systematic", entry, fast, d, input, ops, wf)
+				}
+			}
+		}
+	}
+}
+
+// C13 on a Decoder that has just failed: a Decode that stops with an error after it has recorded some of the
+// requested fields must not leave anything behind: the next well-formed message is read exactly as by a
+// Decoder that never saw the bad input.
+func streamC13AfterError(r *hx.Rng) {
+	n := 200
+	if thorough {
+		n = 3000
+	}
+	for i := 0; i < n; i++ {
+		lv := randLevel(r, 2)
+		d := randDef(r, lv, 2)
+		if len(d.keys) == 0 {
+			continue
+		}
+		good := encodeAll(randMessage(r, lv))
+		if len(good) == 0 {
+			continue
+		}
+		// well-formed fields first, then something that cannot be read: a key cut short, a length beyond the end, a
+		// truncated nested message
+		bad := encodeAll(randMessage(r, lv))
+		switch i % 3 {
+		case 0:
+			bad = append(bad, 0x80)
+		case 1:
+			bad = append(bad, byte(d.keys[0]&0x0f)<<3|2, 0x0a, 0x61)
+		default:
+			if len(bad) > 1 {
+				bad = bad[:len(bad)-1]
+			}
+		}
+		for _, fast := range []bool{false, true} {
+			mk := func() *lazyproto.Decoder {
+				opts := []lazyproto.Option{}
+				if fast {
+					opts = append(opts, lazyproto.WithMode(csproto.DecoderModeFast))
+				}
+				dec, err := lazyproto.NewDecoder(d.toGo(), opts...)
+				if err != nil {
+					return nil
+				}
+				return dec
+			}
+			used, fresh := mk(), mk()
+			if used == nil || fresh == nil {
+				continue
+			}
+			cs := fmt.Sprintf("def=%s bad=%s then=%s fast=%v", d, hx.B(bad), hx.B(good), fast)
+			hx.Inflight("C13 after-error: " + cs)
+			run := func(dec *lazyproto.Decoder, first []byte) (out []string) {
+				defer func() {
+					if recover() != nil {
+						out = []string{"panic"}
+					}
+				}()
+				if first != nil {
+					if rb, err := dec.Decode(append([]byte{}, first...)); err == nil && rb != nil {
+						sweep(rb, d) // (the "bad" input happened to be readable: use it like any other)
+						_ = rb.Close()
+					}
+				}
+				rg, err := dec.Decode(append([]byte{}, good...))
+				if err != nil || rg == nil {
+					return []string{"decode-error"}
+				}
+				defer rg.Close()
+				return sweep(rg, d)
+			}
+			got, want := run(used, bad), run(fresh, nil)
+			sink.OracleN++
+			sink.Count("aftererror-probe")
+			for j := range want {
+				if j >= len(got) || got[j] != want[j] {
+					g := "missing"
+					if j < len(got) {
+						g = got[j]
+					}
+					fail("after a failed Decode the same Decoder reads a well-formed message differently from a fresh Decoder", cs, want[j], g, "lazy-after-error")
+					break
 				}
 			}
 		}
